@@ -111,11 +111,18 @@ def mergeUnion (failKey : Option Bytes) (k v0 v1 : Bytes) : Option Bytes :=
   let t := tokens (v0 ++ v1)
   let sorted := t.1.mergeSort tokLe
   some (sorted.flatMap (fun p => [p.1, p.2]) ++ t.2)
+/-- second test merge function: longest common prefix of the two values (commutative, associative, never longer
+    than an operand) -/
+def lcpBytes : Bytes → Bytes → Bytes
+  | a :: as, b :: bs => if a == b then a :: lcpBytes as bs else []
+  | _, _ => []
+def mergeLcp (_k v0 v1 : Bytes) : Option Bytes := some (lcpBytes v0 v1)
 def dupsortBytes (_k v0 v1 : Bytes) : Ordering := bcmp v0 v1
 
 def mkMCfg (s : St) (mg : String) (ds : Bool) : MCfg :=
   let merge : Option (Bytes → Bytes → Bytes → Option Bytes) :=
     if mg == "union" then some (mergeUnion none)
+    else if mg == "lcp" then some mergeLcp
     else if mg.startsWith "fail:" then some (mergeUnion (unhex (mg.drop 5).toString))
     else none
   { merge, dupsort := if ds then some dupsortBytes else none, fixF2 := s.fixF2, fixF8 := s.fixF8 }
@@ -176,6 +183,7 @@ def stepMerger (s : St) (line : String) : Option (St × String) :=
 
 def mergeOfSpec (mg : String) : Option (Bytes → Bytes → Bytes → Option Bytes) :=
   if mg == "union" then some (mergeUnion none)
+  else if mg == "lcp" then some mergeLcp
   else if mg.startsWith "fail:" then some (mergeUnion (unhex (mg.drop 5).toString))
   else none
 
